@@ -287,7 +287,7 @@ def parse_scoped(b, off=0, end=None, strict=True, allow_trailing=False):
     return r
 
 
-def parse_message(b, strict=True):
+def parse_message(b, strict=True, data=True):
     """Parse a whole SNMP message. Returns dict with 'version' and either
     community fields or v3 fields.  For v3 the auth-parameter content span is
     reported so a MAC can be recomputed."""
@@ -327,6 +327,8 @@ def parse_message(b, strict=True):
     r = {"version": 3, "msg_id": msg_id, "max_size": max_size, "flags": flags[0], "sec_model": sec_model,
          "engine_id": engine_id, "boots": boots, "time": etime, "user": user,
          "auth_params": b[aps:ape], "auth_span": (aps, ape), "priv_params": b[pps:ppe]}
+    if not data:
+        return r
     # msgData
     tag, ds, de = read_tlv(b, spe, e, strict)
     if de != e:
